@@ -364,22 +364,35 @@ def _reexam_ok(facts, it, r, rc, start_blocks):
     if whole:
         if all(rc.must_pass(whole, start=s) for s in start_blocks):
             return True, whole[0], ''
-    if empt and repl:
-        # inline form: emptying on every path, then a replay loop over the taken table
-        if all(rc.must_pass(empt, start=s) for s in start_blocks):
-            for b in repl:
-                fr = iteration_frame(it, b)
-                if fr is None:
-                    continue
-                base = iter_source(fr[2])[0]
-                pp = param_path(base)
-                if pp and pp[0] == 1 and pp[1] == (r['deferred'],) and not (set(iter_adaptors(fr[2])) & LOSSY_ADAPTORS):
-                    after = set()
-                    for e in empt:
-                        after |= rc._reach(e, set())
-                    if fr[1] in after and rc.must_pass([b], start=fr[0], stops=(fr[1],)) and all(rc.must_pass([fr[1]], start=s) for s in start_blocks):
-                        return True, b, ''
-    if not whole and not (empt and repl):
+    # inline form: the table is emptied on every path, then a loop over the taken table replays every entry:
+    # inside that loop (possibly through inlined helpers) elements of entries are reset/removed and removes that
+    # are still ahead are re-deferred
+    loops = []
+    for (u, h) in it.back_edges:
+        lp = innermost_loop(it, h)
+        if lp and lp not in loops:
+            loops.append(lp)
+    if empt and all(rc.must_pass(empt, start=s) for s in start_blocks):
+        after = set()
+        for e in empt:
+            after |= rc._reach(e, set())
+        for head, blocks in loops:
+            fr = iteration_frame(it, head)
+            if fr is None or fr[1] != head:
+                continue
+            pp = param_path(iter_source(fr[2])[0])
+            if not (pp and pp[0] == 1 and pp[1] == (r['deferred'],)) or set(iter_adaptors(fr[2])) & LOSSY_ADAPTORS:
+                continue
+            has_elem = has_add = False
+            for b in blocks:
+                for e in call_effects(facts, it, b):
+                    if e.param == 1 and e.path[:1] == (r['entries'],):
+                        has_elem = True
+                    if e.param == 1 and e.path[:1] == (r['deferred'],) and e.how in ADDING:
+                        has_add = True
+            if has_elem and has_add and head in after and all(rc.must_pass([head], start=s) for s in start_blocks):
+                return True, head, ''
+    if not whole and not empt:
         return False, None, 'never'
     return False, (whole or empt or repl)[0], 'skipped'
 
